@@ -1,7 +1,19 @@
 (* C03 — the move generator lists every legal move exactly once, none off the board.
-   Only statements, `exact`, and Print Assumptions live here. *)
-From Coq Require Import NArith ZArith List Bool.
-Require Import Board Move GameOver AllMovesFacts.
+   Only statements, `exact`, and Print Assumptions live here.
+
+   Vocabulary (definitions in AllMovesFacts2.v / AllMovesFacts4.v, all a few lines):
+     move_equal a b   tak.Move.Equal: X, Y, Type equal and, for slides (Type >= 5), Slides equal
+     meq a b          move_equal a b = true
+     onb p (x, y)     0 <= x < size p /\ 0 <= y < size p
+     dest_z g         Move.Dest() in unbounded integers: the origin moved by Slides.Len() squares
+     legal_list p     filter (fun g => is_ok (mv p g)) (all_moves p)   -- what search/solvers iterate over
+     count m l        length (filter (fun g => move_equal g m) l)
+     invariant p      size 3..8, board_ok, reserves_ok, tall_ok (the hypotheses of C01)
+     mv               Refine.mv = move_prealloc with the bounds check (the repaired MovePreallocated) *)
+From Coq Require Import NArith ZArith List Bool SetoidList.
+Require Import Board Rules Move GameOver Refine RefinePlace2.
+Require Import AllMovesFacts AllMovesFacts2 AllMovesFacts3 AllMovesFacts4 AllMovesFacts5 AllMovesFacts6.
+Require Symmetry.
 Import ListNotations.
 
 (* The slides table built like move.go's init()/calculateSlides is, for every carry limit h in 1..8,
@@ -14,19 +26,99 @@ Theorem C03_slides_table_spec : forall h, (1 <= h <= 8)%nat ->
 Proof. exact slides_table_spec. Qed.
 Print Assumptions C03_slides_table_spec.
 
-(* Completeness of the slide part of AllMoves: on every size, for every square with a stack whose top
+(* Slide part of completeness, in terms of shapes: on every size, for every square with a stack whose top
    belongs to the side to move (from ply 2 on), every direction and every drop composition whose carry
-   is within min(height, size) and whose length is within the distance to the edge is in the list.
-   (C03_partial: completeness for placements, NoDup of the whole list and on-board endpoints are
-   decided by the correspondence + oracle for now; planned as allmoves_complete / allmoves_nodup /
-   allmoves_on_board in DESIGN 5.3.) *)
-Theorem C03_allmoves_has_slide_partial : forall p x y t dc ds,
+   is within min(height, size) and whose length is within the distance to the edge is in the list. *)
+Theorem C03_allmoves_has_slide : forall p x y t dc ds,
   (3 <= size p <= 8)%N -> (x < N.to_nat (size p))%nat -> (y < N.to_nat (size p))%nat ->
   let i := N.of_nat (y * N.to_nat (size p) + x) in
   nthN (Height p) i <> 0%N -> (2 <= move p)%Z ->
-  (if to_move_white p then has (White p) i else has (Black p) i) = true ->
+  (if to_move_white p then has (White p) i else has (Move.Black p) i) = true ->
   dist p x y t = Some dc ->
   good (N.to_nat (N.min (nthN (Height p) i) (size p))) ds -> (length ds <= dc)%nat ->
   In {| mX := Z.of_nat x; mY := Z.of_nat y; mT := t; mS := pack ds |} (all_moves p).
 Proof. exact allmoves_has_slide. Qed.
-Print Assumptions C03_allmoves_has_slide_partial.
+Print Assumptions C03_allmoves_has_slide.
+
+(* THE EXACT CONTENT OF AllMoves (sizes 3..8, any field values otherwise).  `generated p g` (AllMovesFacts6.v):
+   g's origin (x, y) is on the board and either the square is empty, the Slides word is 0 and the type is
+   PlaceFlat, or - from ply 2 on - PlaceStanding, or PlaceCapstone when the mover still has a capstone
+   (nothing about the stone reserve: AllMoves lists flats and walls even when the reserve is empty);
+   or the square holds a stack owned by the mover, the ply is >= 2, and the Slides word is pack ds for a
+   drop list ds (every drop >= 1, sum <= min(height, size)) no longer than the distance to the edge in
+   the direction of the type. *)
+Theorem C03_all_moves_spec : forall p g, (3 <= size p <= 8)%N -> (In g (all_moves p) <-> generated p g).
+Proof. exact all_moves_spec. Qed.
+Print Assumptions C03_all_moves_spec.
+
+(* COMPLETENESS.  Every raw move value other than Pass - any coordinates, any type code, any Slides word,
+   whatever is in the Slides field of a placement - that the model of the repaired MovePreallocated
+   accepts in a well-formed position is Equal to an entry of AllMoves.  (wf: size 3..8, Height/Stacks of
+   length size^2, height 0 iff no colour bit, ...; nothing about reserves or stack heights is needed.) *)
+Theorem C03_allmoves_complete : forall p m p',
+  wf p -> mT m <> 1%N -> mv p m = Ok p' ->
+  exists g, In g (all_moves p) /\ move_equal g m = true.
+Proof. exact allmoves_complete. Qed.
+Print Assumptions C03_allmoves_complete.
+
+(* the same under the two facts the proof really uses *)
+Theorem C03_allmoves_complete_min : forall p m p',
+  (3 <= size p <= 8)%N ->
+  (forall i, (i < size p * size p)%N -> has (N.lor (White p) (Move.Black p)) i = false -> nthN (Height p) i = 0%N) ->
+  mT m <> 1%N -> mv p m = Ok p' ->
+  exists g, In g (all_moves p) /\ move_equal g m = true.
+Proof. exact allmoves_complete_min. Qed.
+Print Assumptions C03_allmoves_complete_min.
+
+(* NO DUPLICATES, for every value of the position record whatsoever (no well-formedness needed):
+   no two entries of AllMoves are Equal. *)
+Theorem C03_allmoves_nodup : forall p, NoDupA meq (all_moves p).
+Proof. exact allmoves_nodup. Qed.
+Print Assumptions C03_allmoves_nodup.
+
+(* ON THE BOARD, again for every position value: every entry has a type in PlaceFlat..SlideDown, its
+   origin and its destination are on the board (hence the whole path), and a slide moves at least one square. *)
+Theorem C03_allmoves_on_board : forall p g, In g (all_moves p) ->
+  (2 <= mT g <= 8)%N /\ onb p (mX g, mY g) /\ onb p (dest_z g) /\ ((5 <= mT g)%N -> (1 <= slide_len (mS g))%Z).
+Proof. exact allmoves_on_board. Qed.
+Print Assumptions C03_allmoves_on_board.
+
+(* ... and the int8 arithmetic of Move.Dest() (the model used by the symmetry code) computes that destination *)
+Theorem C03_allmoves_dest : forall p g, (size p <= 8)%N -> In g (all_moves p) ->
+  Symmetry.dest g = Ok (dest_z g) /\ onb p (mX g, mY g) /\ onb p (dest_z g).
+Proof. exact allmoves_dest. Qed.
+Print Assumptions C03_allmoves_dest.
+
+(* THE LEGAL MOVE SET.  For every position satisfying the invariant of C01: AllMoves filtered by
+   MovePreallocated's verdict has no two Equal entries, each entry is legal by the rules of Tak (Rules.v),
+   and EVERY raw move value m occurs in it (up to Equal) exactly once if the rules allow m and not at all
+   otherwise. *)
+Theorem C03_legal_set_exact : forall p, invariant p ->
+  NoDupA meq (legal_list p) /\
+  (forall g, In g (legal_list p) -> In g (all_moves p) /\ is_some (rules_move (abs p) (raw g)) = true) /\
+  (forall m, count m (legal_list p) = if is_some (rules_move (abs p) (raw m)) then 1%nat else 0%nat).
+Proof. exact legal_set_exact. Qed.
+Print Assumptions C03_legal_set_exact.
+
+Corollary C03_legal_set_iff : forall p m, invariant p ->
+  (is_some (rules_move (abs p) (raw m)) = true <-> exists g, In g (legal_list p) /\ move_equal g m = true).
+Proof. exact legal_set_iff. Qed.
+Print Assumptions C03_legal_set_iff.
+
+(* Non-vacuity (AllMovesFacts5.v): ex_pos is a 5x5 position after 14 plies (a white stack of three, a black
+   wall and a black capstone in the way); it satisfies `invariant` and `wf`, the model accepts moves in it,
+   AllMoves has 78 entries of which 69 are legal; and without the bounds check (pinned tree) completeness
+   is false. *)
+Theorem C03_example_position : invariant ex_pos /\ wf ex_pos /\
+  (exists q, mT (M 1 1 7 33) <> 1%N /\ mv ex_pos (M 1 1 7 33) = Ok q) /\
+  length (all_moves ex_pos) = 78%nat /\ length (legal_list ex_pos) = 69%nat.
+Proof. exact ex_summary. Qed.
+Print Assumptions C03_example_position.
+
+Theorem C03_pinned_incomplete :
+  invariant (new 5 21 1) /\ mT (M 5 (-1) 2 0) <> 1%N /\
+  (exists q, mv_pinned (new 5 21 1) (M 5 (-1) 2 0) = Ok q) /\
+  (forall g, In g (all_moves (new 5 21 1)) -> move_equal g (M 5 (-1) 2 0) = false) /\
+  mv (new 5 21 1) (M 5 (-1) 2 0) = Err.
+Proof. exact pinned_incomplete. Qed.
+Print Assumptions C03_pinned_incomplete.
